@@ -14,6 +14,10 @@ use std::collections::HashSet;
 
 pub fn tables(_w: &mut dyn std::io::Write) {}
 
+/// stage two: Tx::validate on real signed transactions against the end-to-end Lean reference (`c03.txv`)
+#[path = "txv.rs"]
+pub mod txv;
+
 pub fn pubkey(privk: &[u8; 32]) -> [u8; 33] {
     let sk = SigningKey::from_slice(privk).unwrap();
     let vk = VerifyingKey::from(&sk);
@@ -77,6 +81,9 @@ pub fn exec(op: &str, a: &[&str]) -> Option<String> {
         }
         // c03.mut <seed> <nin> <nout> <idx> <type> <mutation>: wallet-signed P2PKH spend of input idx, then one mutation
         "c03.mut" => Some(mutated_spend(a[0].parse().unwrap(), a[1].parse().unwrap(), a[2].parse().unwrap(), a[3].parse().unwrap(), a[4].parse().unwrap(), a[5])),
+        // c03.txv <tx hex> <utxos> <forkid 0|1> <genesis 0|1>: self-contained; the driver decides the verdict with its own
+        // interpreter, sighash and secp256k1 (harness/src/txv.rs, lean/CG/Drv/TxV.lean)
+        "c03.txv" => Some(txv::exec(a)),
         // c03.multi <seed> <nout> <types> <mutated output index or ->: EVERY input is a wallet-signed P2PKH spend with its own
         // sighash type (so several digests go through the one cache Tx::validate shares); optionally one output amount is
         // changed after signing
@@ -248,4 +255,7 @@ pub fn gen(tier: &str, rng: &mut Rng, out: &mut Vec<String>) {
         let mut dd = [0u8; 32]; dd.copy_from_slice(&d);
         if let Ok(sig) = generate_signature(&k, &Hash256(dd), ty) { out.push(format!("c03.sig {} {} {} {}", hexd(&k), hexd(&d), ty, hexd(&sig))); }
     }
+    // (d) stage two: fully signed 1..5-input spends (P2PKH / P2PK / 2-of-3 / CLTV / CSV, mixed FORKID and legacy types) and
+    // single-field mutations, each verdict decided by the Lean reference
+    txv::gen(tier, rng, out);
 }
